@@ -27,9 +27,10 @@ WrIter(s, set, nf, nb, bf) ==
   [j \in {IdxOf(s, k) : k \in ks} |-> set[CHOOSE k \in ks : IdxOf(s, k) = j]]
 KeepSlots(s, keep) == {IdxOf(s, k) : k \in {x \in keep : Has(s, x)}}
 \* hint codes of the harness: <<>> = exact; hi = -1: None, -2: usize::MAX, -3: usize::MAX/2 (both
-\* saturate the heuristic's arithmetic: code -9, see ExtendRebuilds), -4: 2^16
+\* saturate the heuristic's arithmetic: code -9, see ExtendRebuilds), -4: 2^16, -5: usize::MAX/4 and -6: 2^40
+\* (far above anything yielded but not saturating: code -8)
 DecodeHint(h, n) == IF h = <<>> THEN <<n, n>>
-                    ELSE <<h[1], CASE h[2] = -2 -> -9 [] h[2] = -3 -> -9 [] h[2] = -4 -> 65536 [] OTHER -> h[2]>>
+                    ELSE <<h[1], CASE h[2] = -2 -> -9 [] h[2] = -3 -> -9 [] h[2] = -4 -> 65536 [] h[2] = -5 -> -8 [] h[2] = -6 -> -8 [] OTHER -> h[2]>>
 
 Apply(kind, s, op, f) ==
   LET pq == kind = "pq" IN
